@@ -180,7 +180,10 @@ def _analyze_view(prefix, links, leaf="job"):
     }
     existing_tree = _build_tree(existing_paths)
     for path in links:
-        _color_path(existing_tree, path.split(os.sep))
+        # Only an existing link is kept at the location of a link, a directory
+        # found there (and everything within) is obsolete.
+        tokens = path.split(os.sep)
+        _color_path(existing_tree, tokens if path in existing_paths else tokens[:-1])
     obsolete = []
     dead_branches = _find_dead_branches(existing_tree)
     for branch in reversed(sorted(dead_branches, key=len)):
@@ -188,6 +191,9 @@ def _analyze_view(prefix, links, leaf="job"):
             obsolete.append(os.path.join(*(n.name for n in branch)))
     if "." in obsolete:
         obsolete.remove(".")
+    # A link that is not part of the view is obsolete, even if a directory of
+    # that name is part of the view.
+    obsolete.extend(existing_paths.difference(links).difference(obsolete))
     keep_or_update = existing_paths.intersection(links.keys())
     new = set(links.keys()).difference(keep_or_update)
     to_update = [
@@ -237,14 +243,9 @@ def _find_all_links(root, leaf="job"):
 
     """
     for dirpath, dirnames, filenames in os.walk(root):
-        for dirname in dirnames:
-            if dirname == leaf:
-                yield os.path.relpath(dirpath, root)
-                break
-        for filename in filenames:
-            if filename == leaf:
-                yield os.path.relpath(dirpath, root)
-                break
+        # A directory that is named like the leaf is not a link.
+        if leaf in dirnames + filenames and os.path.islink(os.path.join(dirpath, leaf)):
+            yield os.path.relpath(dirpath, root)
 
 
 class _Node:
